@@ -714,6 +714,10 @@ func (repo *Repository) GetHeaders(ctx context.Context,
 	headersFile := -1
 	var headersData []*HeaderData
 	for height := startHeight; ; height++ {
+		if height > repo.longest.Height() {
+			break // above tip
+		}
+
 		at := repo.longest.AtHeight(height)
 		if at != nil {
 			result = append(result, at.Header)
